@@ -89,6 +89,7 @@ def main():
         (r"^<std::string::String as Clone>::clone$", lambda e, m, a: deref(e, a[0])),
         (r"^HashMap::<std::string::String, Value>::get::<std::string::String>$", m_map_get),
         (r"^HashMap::<std::string::String, Value>::insert$", m_map_insert),
+        (r"^HashMap::<std::string::String, Value>::contains_key::<.*>$", lambda e, m, a: (lambda k: (k[1].decode() if isinstance(k[1], bytes) else k[1]) in deref(e, a[0])[1])(deref(e, a[1]))),
         (r"^std::option::Option::<&Value>::cloned$", m_cloned),
         (r"^<Value as Clone>::clone$", lambda e, m, a: deref(e, a[0])),
         (r"^std::option::Option::<Value>::ok_or_else::<ExecutionError, \{closure@.*\}>$", m_ok_or_else),
